@@ -108,11 +108,11 @@ meta("C03", level="fault_enumeration",
           "valid/rejected values chosen per step, plus random sequences of length 10-50 over mixed entry points with failure probability 0-90% and "
           "20 io::ErrorKinds; oracle per call over (sink call log, handler log, returned value): emit-count delta (1 valid / 0 rejected), Ok(m) text "
           "== text the sink accepted in that call, Err kind IoError with source() == the injected io::Error (kind + unique message), InvalidInput for "
-          "rejected values, quiet form: handler delta 1 with the same error on failure / 0 on success, no unwind. distinct = outcome-signature strings "
+          "rejected values, quiet form: handler delta 1 with the same error on failure / 0 on success, no unwind; the sink's string equals what the same call produces on a pristine client on a fresh thread (nothing left over from earlier calls; sampled); a third of the sequences use delimiter-laden prefixes / keys / tags; one quiet send in eight is made by a destructor while its thread unwinds. distinct = outcome-signature strings "
           "(accept/refuse/invalid x quiet/non-quiet per step) x entry point x handler present; trivial = all accepted non-quiet",
      assumptions=["sink outcomes are scripted per emit in call order; the sink is a harness MetricSink, not a socket"],
      exhaustive_scope="all accept/refuse outcome sequences up to the stated length for every entry point (values/forms per step are sampled)",
-     min_evaluations=10000, must_observe={"enumerated_patterns": 1000})
+     min_evaluations=10000, must_observe={"enumerated_patterns": 1000, "texts_compared_with_a_pristine_client": 1000, "quiet_sends_from_a_destructor_during_unwinding": 100})
 
 
 @plan("C03")
@@ -287,14 +287,14 @@ meta("C08", level="exploration",
      min_evaluations=2000, must_observe={"sink_calls_observed": 2000, "enumerated_histories": 500, "deliveries_observed": 1000, "real_time_precedence_pairs_checked": 1000, "handle_clone_drop_pairs_during_run": 100})
 meta("C09", level="exploration",
      rule="rule R4: after the last handle is dropped every accepted metric is still handed over, then SINK_DROP is observed (the wrapped sink is released), then no library thread is left; "
-          "drop returns while the gate is closed and never unwinds. Drop matrix: capacities unbounded/0/1/2/3/8 x EVERY occupancy 0..=capacity at the last drop (incl. completely full) x "
+          "drop returns while the gate is closed and never unwinds, and it does not wait either: with a backlog of 400 behind a sink that lets one metric through per 10 ms for as long as the drop has not returned, the dropping thread must not be found waiting or spinning inside drop (call watchdog, /proc state and CPU time). Drop matrix: capacities unbounded/0/1/2/3/8 x EVERY occupancy 0..=capacity at the last drop (incl. completely full) x "
           "worker busy/idle x every ok/err/panic pattern of the remaining metrics x clone dropped first; forced windows C1-C7 park the worker just before it waits (also with entries queued behind its back) and the dropper between "
           "'flag set' and 'wake-up'; drop races: the last 2-4 handles are dropped at the same moment on as many threads (spin barrier), with 0-3 metrics queued, some of the handles dropped by a guard while their thread unwinds from a panic; histories without caller-side flushes run against a wrapped sink whose flush() waits for an emit in progress like the library's buffered sinks; " + Q_SEQ + Q_CONC,
      assumptions=Q_ASSUME, exhaustive_scope="the drop matrix and the sequential op-sequence enumeration up to the stated bounds",
      min_evaluations=2000, must_observe={"sink_drops_observed": 2000, "last_drop_with_full_queue": 20, "last_drop_while_sink_blocked": 100, "forced_stop_windows": 20, "concurrent_last_drop_races": 1000, "entries_queued_behind_parked_worker": 10, "handles_dropped_during_unwinding": 50})
 meta("C10", level="exploration",
      rule="rule R5: sequential and exact with the worker parked inside the gated sink: emit returns Ok iff accepted - handed_over < capacity (distinguishes capacity c from c+-1), always Ok when "
-          "unbounded, Ok(n) => n == len, emit returns while the gate is closed (a call that blocks for good is detected by the calling thread's /proc state), ENTER never on a caller thread, no "
+          "unbounded, Ok(n) => n == len, emit returns while the gate is closed (a call that blocks for good, a call found waiting - state S in >= 90% of >= 25 samples over >= 700 ms - and a call that burns >= 300 ms of CPU time are detected from the calling thread's /proc entries), ENTER never on a caller thread, no "
           "wrapped-sink error text or panic in any emit result; under concurrency the tolerant bounds of DESIGN.md appendix C (definite over-acceptance / definite false refusal); a forced window "
           "parks the worker after taking one entry and probes that exactly `capacity` further metrics are accepted; blocked-sink races: with the worker parked inside the closed gate, 2-16 "
           "producers released by a barrier hammer emit (also with 200 KB metrics) - every emit must return while the gate stays closed (else the producers' /proc state is the verdict) and "
